@@ -199,7 +199,13 @@ pub fn generate(g: &mut G, index: u64) -> Scenario {
                 }
             }
             for s in fam.slots[c].of_kind(&[HKind::Addr, HKind::Sender, HKind::Caller]) {
-                progs[c].push(Op::Drop { h: s });
+                if fam.slots[c].get(s) == Some(HKind::Sender) && g.chance(1, 3) {
+                    // the send future outlives its `Sender` (on a full bounded mailbox it is
+                    // still parked when the handle is gone): a future is not a handle
+                    progs[c].push(Op::SendThenDrop { h: s, id: g.id(), work: vec![] });
+                } else {
+                    progs[c].push(Op::Drop { h: s });
+                }
                 fam.slots[c].set(s, None);
             }
             if let Some(s) = fam.slots[c].of_kind(&[HKind::Owning]).first().copied() {
@@ -324,7 +330,7 @@ pub fn check(v: &View) -> Vec<Violation> {
             // (ii) drains what it had accepted, then stops gracefully
             if a.dead.is_some() {
                 crate::log::probe("c05_last_drop_drain_checked");
-                for o in v.ops.iter().filter(|o| o.target == Some(aidx) && matches!(o.inner, Op::Send { .. } | Op::ForceSend { .. }) && matches!(o.res, Some(Res::Ok))) {
+                for o in v.ops.iter().filter(|o| o.target == Some(aidx) && matches!(o.inner, Op::Send { .. } | Op::SendThenDrop { .. } | Op::ForceSend { .. }) && matches!(o.res, Some(Res::Ok))) {
                     if o.end.unwrap() < t0 && spec.effective_timeout().is_none() {
                         let id = o.msg_id().unwrap();
                         if !v.cbs_of(a).any(|c| c.id == id && c.cb == Cb::Msg && c.exit.is_some()) {
@@ -405,7 +411,7 @@ pub fn nontrivial(v: &View) -> bool {
         // a message accepted before t0 and handled after it, or a timer / weak handle around
         let backlog = v.ops.iter().any(|o| {
             o.target == Some(aidx)
-                && matches!(o.inner, Op::Send { .. } | Op::ForceSend { .. })
+                && matches!(o.inner, Op::Send { .. } | Op::SendThenDrop { .. } | Op::ForceSend { .. })
                 && matches!(o.res, Some(Res::Ok))
                 && o.end.unwrap() < t0
                 && v.cbs_of(a).any(|c| Some(c.id) == o.msg_id() && c.enter > t0)
